@@ -61,6 +61,12 @@ Theorem C16_avc_ParseSliceHeader_total :
 Proof. exact c16_parse_slice_total. Qed.
 Print Assumptions C16_avc_ParseSliceHeader_total.
 
+(* avc.GetSliceTypeFromNALU: data[0] and data[1:] are modelled as partial operations *)
+Theorem C16_avc_GetSliceTypeFromNALU_total : forall data : list N,
+  get_slice_type data = Err \/ exists t, get_slice_type data = Ok t /\ t <= 4.
+Proof. exact get_slice_type_total. Qed.
+Print Assumptions C16_avc_GetSliceTypeFromNALU_total.
+
 (* the loop lemmas behind it: from every reachable reader state (rok: sticky error or well-formed) with
    potential mu_er s (= unread bits + 1, 0 after the error), fuel > potential is never exhausted, the
    potential never grows, and the guarded count loop appends at most `potential` elements, whatever the
@@ -135,6 +141,9 @@ Proof. vm_compute. reflexivity. Qed.
 Example ex_sps_hostile_count :
   c16_parse_sps true [103; 66; 0; 30; 248; 0; 0; 0; 0; 128; 0; 0; 0; 1] = Err.
 Proof. vm_compute. reflexivity. Qed.
+
+Example ex_slice_type_short : get_slice_type [] = Err /\ get_slice_type [101] = Err /\ get_slice_type [101; 136] = Ok 2.
+Proof. vm_compute. repeat split. Qed.
 
 Example ex_slice_no_pps : c16_parse_slice (fun _ => None) (fun _ => None) [101; 136; 132; 0] = Err.
 Proof. vm_compute. reflexivity. Qed.
